@@ -97,18 +97,42 @@ type transfer struct {
 // the packet contract's PacketSent).
 var emitterRuntime = common.FromHex("602036038060206000376000359060" + "00a100")
 
+// callbackRuntime: whatever it is called with, the contract counts the call in slot 0 and then calls
+// Staking.delegate("not-a-validator", 1): the EVM call succeeds, the native action behind it cannot; if the call itself
+// fails the contract reverts.
+func callbackRuntime() []byte {
+	data, err := stakingcontract.StakingContract.ABI.Pack("delegate", "not-a-validator", big.NewInt(1))
+	must(err)
+	staking := common.HexToAddress(syscontracts.StakingContractAddress)
+	code := []byte{0x60, 0x01, 0x60, 0x00, 0x54, 0x01, 0x60, 0x00, 0x55} // slot0++
+	l := byte(len(data))
+	// CODECOPY(0, off, len) — off patched below
+	code = append(code, 0x60, l, 0x60, 0x00 /*off*/, 0x60, 0x00, 0x39)
+	offAt := len(code) - 4
+	// CALL(gas, staking, 0, 0, len, 0, 0)
+	code = append(code, 0x60, 0x00, 0x60, 0x00, 0x60, l, 0x60, 0x00, 0x60, 0x00, 0x73)
+	code = append(code, staking.Bytes()...)
+	code = append(code, 0x5a, 0xf1, 0x15, 0x60, 0x00 /*revert label*/, 0x57, 0x00)
+	labelAt := len(code) - 3
+	code[labelAt] = byte(len(code))
+	code = append(code, 0x5b, 0x60, 0x00, 0x60, 0x00, 0xfd)
+	code[offAt] = byte(len(code))
+	return append(code, data...)
+}
+
 type Sys struct {
 	cfg  Config
 	w    *world.World
 	tr   []*transfer
 	tok  map[string]common.Address // "A:erc20" origin token on A, "B:bound" bound token on B for A's erc20, "B:boundnative", ...
 	emit map[string]common.Address // per chain: the log-emitting helper contract
+	cb   map[string]common.Address // per chain: the callback contract (counts its calls in slot 0, then delegates to a malformed validator through the staking system contract)
 	dead string
 }
 
 // New builds the initial world (setup is deterministic).
 func New(cfg Config) *Sys {
-	s := &Sys{cfg: cfg, w: world.NewWorld(), tok: map[string]common.Address{}, emit: map[string]common.Address{}}
+	s := &Sys{cfg: cfg, w: world.NewWorld(), tok: map[string]common.Address{}, emit: map[string]common.Address{}, cb: map[string]common.Address{}}
 	names := []string{A, B}
 	if cfg.Chains == 3 {
 		names = append(names, C)
@@ -177,6 +201,18 @@ func New(cfg Config) *Sys {
 					panic(fmt.Sprint("emitter deployment failed: ", err))
 				}
 				s.emit[n2s(c.Name)] = addr
+			}
+			// the callback contract (deployed by "out")
+			{
+				out := c.Accounts["out"].Eth
+				rt := callbackRuntime()
+				n := byte(len(rt))
+				init := append([]byte{0x60, n, 0x60, 0x0c, 0x60, 0x00, 0x39, 0x60, n, 0x60, 0x00, 0xf3}, rt...)
+				addr := crypto.CreateAddress(out, c.App.EvmKeeper.GetNonce(ctx, out))
+				if res, err := c.App.AggregateKeeper.CallEVMWithData(ctx, out, nil, init); err != nil || res.Failed() {
+					panic(fmt.Sprint("callback contract deployment failed: ", err))
+				}
+				s.cb[n2s(c.Name)] = addr
 			}
 			world.KeeperCall(c, ctx, erc20contracts.ERC20MinterBurnerDecimalsContract.ABI, u1.Eth, t, "approve", endpointcontract.EndpointContractAddress, s.rawCfg(1000000))
 		})
@@ -394,6 +430,8 @@ func (s *Sys) sendTx(src, dst *world.Chain, kind string, amount int64) (tx []byt
 	case "calleoa":
 		d.ContractAddress = strings.ToLower(src.Accounts["out"].Eth.String())
 		d.CallData = []byte{1, 2, 3, 4}
+	case "cbfail": // the sender names a callback contract whose (EVM-successful) call into the staking system contract fails natively
+		d.CallbackAddress = s.cb[short[src.Name]]
 	case "hookfail": // Staking.delegate to a malformed validator: the EVM call succeeds, the post-transaction hook fails
 		d.ContractAddress = syscontracts.StakingContractAddress
 		cd, err := stakingcontract.StakingContract.ABI.Pack("delegate", "not-a-validator", big.NewInt(1))
@@ -1596,6 +1634,11 @@ var DelayScript = []string{"send A B feeonly1 1", "send A B erc20+callrevert 1",
 	"recv A>B#1 g1", "recv A>B#1 g1", "recv A>B#1 g1", "recv A>B#2 g1", "upd A B", "upd B A", "upd A B",
 	"ack A>B#1 g1", "ack A>B#1 g1", "ack A>B#1 g1", "ack A>B#2 g1", "ack A>B#2 g2"}
 
+// CallbackScript: a transfer whose sender named a callback contract; the callback's call into the staking system contract
+// succeeds in the EVM and fails natively, so the acknowledgement transaction fails as a whole, every time.
+var CallbackScript = []string{"send A B erc20+cbfail 1", "send A B erc20 1", "upd B A", "upd A B", "upd B A", "recv A>B#1 g1", "recv A>B#2 g1", "upd A B", "upd B A", "upd A B",
+	"ack A>B#1 g1", "ack A>B#2 g1", "ack A>B#1 g2"}
+
 func ScriptedViolations(prop string) (steps int, out []ScriptViol) {
 	seen := map[string]bool{}
 	{
@@ -1619,7 +1662,7 @@ func ScriptedViolations(prop string) (steps int, out []ScriptViol) {
 			panic(fmt.Sprintf("delay script: only %d relayed messages accepted after the delay period (the script is vacuous)", accepted))
 		}
 	}
-	for _, script := range [][]string{RestartScript, ManySendsScript, HookScript, ForgedLogScript, UpgradeScript, EmptyRelayerScript, ExportRestartScriptA, ExportRestartScriptB} {
+	for _, script := range [][]string{RestartScript, ManySendsScript, HookScript, ForgedLogScript, UpgradeScript, EmptyRelayerScript, ExportRestartScriptA, ExportRestartScriptB, CallbackScript} {
 		s := New(Config{Chains: 3, MaxSends: 14, Prop: prop})
 		for i, op := range script {
 			_, _, vs := s.Apply(op)
